@@ -828,6 +828,9 @@ func (c *clusterClient) doresultfn(
 					continue
 				}
 				retryDelay = c.retryHandler.RetryDelay(attempts, cm, resp.Error())
+				if retryDelay < 0 {
+					continue // the retry policy gave up on this command: keep its error, do not re-send it with the others
+				}
 			} else {
 				nc = c.redirectOrNew(addr, cc, cm.Slot(), mode)
 			}
@@ -1288,6 +1291,9 @@ func (c *clusterClient) resultcachefn(
 					continue
 				}
 				retryDelay = c.retryHandler.RetryDelay(attempts, Completed(cm.Cmd), resp.Error())
+				if retryDelay < 0 {
+					continue // the retry policy gave up on this command: keep its error, do not re-send it with the others
+				}
 			} else {
 				nc = c.redirectOrNew(addr, cc, cm.Cmd.Slot(), mode)
 			}
